@@ -282,13 +282,20 @@ func (r *renderer) stmt(s *Stmt, depth int) {
 func (r *renderer) node(n *Node) {
 	r.deco(0)
 	hdrs := make([]string, 0, 3)
-	sep := []string{": ", ":", ":    "}[r.l.HdrSep%3]
+	// with HdrSep set, every header line draws its own spacing after the colon
+	sepOf := func() string {
+		if r.l.HdrSep == 0 {
+			return ": "
+		}
+		return []string{": ", ":", ":    ", ":  "}[r.rng.intn(4)]
+	}
 	for _, e := range n.Extra {
-		hdrs = append(hdrs, e[0]+sep+e[1])
+		hdrs = append(hdrs, e[0]+sepOf()+e[1])
 	}
 	if n.Tracking != "" {
-		hdrs = append(hdrs, "tracking"+sep+n.Tracking)
+		hdrs = append(hdrs, "tracking"+sepOf()+n.Tracking)
 	}
+	sep := sepOf()
 	pos := n.TitlePos
 	if pos > len(hdrs) {
 		pos = len(hdrs)
